@@ -40,7 +40,7 @@ class NoDeprecatedCustomRule(ValidationRule):
                     )
                 )
 
-    def enter_argument(self, node: ArgumentNode, *_args: Any) -> None:
+    def enter_argument(self, node: ArgumentNode, *args: Any) -> None:
         context = self.context
         arg_def = context.get_argument()
         if arg_def:
@@ -50,8 +50,9 @@ class NoDeprecatedCustomRule(ValidationRule):
                 arg_name = node.name.value
                 if directive_def is None:
                     parent_type = context.get_parent_type()
-                    field_def = context.get_field_def()
-                    field_name = field_def.ast_node.name.value  # type: ignore
+                    # the field node is the last ancestor (the parent is its argument list);
+                    # the field definition has no AST node when the schema was not built from SDL
+                    field_name = args[3][-1].name.value
                     self.report_error(
                         GraphQLError(
                             f"The argument '{parent_type}.{field_name}({arg_name}:)'"
